@@ -36,9 +36,12 @@ def apply_variant(v: Variant, root: Optional[str] = None) -> Optional[Dict[str, 
         src = open(path, encoding="utf-8").read()
     except OSError:
         return None
-    if src.count(old) != 1:
-        return None
-    return {file: src.replace(old, new)}
+    pairs = old if isinstance(old, list) else [(old, new)]
+    for o, n in pairs:
+        if src.count(o) != 1:
+            return None
+        src = src.replace(o, n)
+    return {file: src}
 
 
 def run_variant(v: Variant) -> Tuple[str, str, str]:
